@@ -20,7 +20,9 @@ from lib import common, families, progcheck  # noqa: E402
 
 
 def scripts(seed, tier):
-    out = [("none", None), ("all-unknown", lambda k: True), ("even", lambda k: k % 2 == 0), ("odd", lambda k: k % 2 == 1)]
+    out = [("none", None), ("all-unknown", lambda k: True)]
+    if tier == "thorough":
+        out += [("even", lambda k: k % 2 == 0), ("odd", lambda k: k % 2 == 1)]
     nrand = 1 if tier == "quick" else 4
     for i in range(nrand):
         r = random.Random(f"script-{seed}-{i}")
@@ -34,7 +36,7 @@ def scripts(seed, tier):
 
 def main(run: common.Run):
     tier = run.tier
-    n = 25 if tier == "quick" else 250
+    n = 10 if tier == "quick" else 120
     run.bounds = {"programs_per_family": n, "solver_cap_s": 20 if tier == "quick" else 120,
                   "fault_scripts": [s for s, _ in scripts(run.seed, tier)],
                   "solver_timeout_branching": ["default(1ms)", "0 (unlimited)", "1000"]}
@@ -48,28 +50,22 @@ def main(run: common.Run):
     ]
     only = set(run.args.only.split(",")) if run.args.only else None
     base = families.programs(run.seed, n, tier, only=only, c02=True)
-    total = {}
+    plist = []
     for sname, script in scripts(run.seed, tier):
-        plist = []
         for p in base:
             q = copy.copy(p)
             q.name = p.name.replace("#", f"#{sname}:", 1) if script is not None else p.name
             q.script, q.script_name = script, sname
             plist.append(q)
-        stats = progcheck.run_programs(run, plist, want=("O2",), cls_prefix=f"{sname}/")
-        for k, v in stats.items():
-            total[k] = total.get(k, 0) + v
     # branching-timeout configurations (no stub)
     for label, val in (("tb0", 0), ("tb1000", 1000)):
-        plist = []
         for p in base[:: 2 if tier == "quick" else 1]:
             q = copy.copy(p)
             q.name = p.name.replace("#", f"#{label}:", 1)
             q.options = dict(p.options, solver_timeout_branching=val)
+            q.script_name = label
             plist.append(q)
-        stats = progcheck.run_programs(run, plist, want=("O2",), cls_prefix=f"{label}/")
-        for k, v in stats.items():
-            total[k] = total.get(k, 0) + v
+    total = progcheck.run_programs(run, plist, want=("O2",))
     run.extra.update(total)
     run.extra["rule"] = ("one O2 obligation per (program, fault script or configuration, reference path); the solver "
                          "decides that no input of that reference path escapes every reported path condition")
